@@ -11,19 +11,23 @@ CASES = {'quick': 9000, 'thorough': 160000}
 PARALLEL = True
 PROOF_TIMEOUT = 900
 ALLOWED_AXIOMS = ()
-RULE = ('request cases: every single injection point (19) x exception kind (plain / HTTP exception response / '
-        'PredicateMismatch, plus "predicate false / permission denied") x exception-view availability (none / renders / '
-        'raises each kind) x route or traversal x callback-registration pattern, enumerated exhaustively; then random '
-        'scenario trees (subrequests to depth 3, with and without tweens, up to 3 faults, random callback '
-        'registrations at any point). scope cases: the 15 analysed entry points x failure site. non-trivial = a request '
-        'case in which a fault fires or a callback runs, or a scope case with an injected failure; distinct by full case')
+RULE = ('request cases: every single injection point (20) x exception kind (plain / HTTP exception response / '
+        'PredicateMismatch, plus "predicate false / permission denied") x exception-view configuration (mask of: view for '
+        'Exception, view for HTTPException, default exceptionresponse view; each user view rendering or raising each kind) '
+        'x route or traversal x callback-registration pattern, enumerated; single faults inside a subrequest; random '
+        'scenario trees (subrequests to depth 3, with and without tweens, up to 3 faults, random registrations). thorough '
+        'adds every PAIR of faults in one request and every (parent, subrequest) fault pair x use_tweens, and a 16-thread '
+        'soak (a test: per-thread stacks independent, observations equal to the single-threaded ones). scope cases: the 15 '
+        'analysed entry points x failure site. non-trivial = a request case in which a fault fires or a callback runs, or '
+        'a scope case with an injected failure, or the soak; distinct by full case')
 ASSUMPTIONS = [
     'part (a): only calls raise (attribute access, arithmetic, truth tests do not); an opaque call leaves the thread-local '
     'stack as it found it (for nested router calls this is the statement being proved); 3-argument getattr and the '
     'AppEnvironment constructor do not raise; the name->definition bindings in harness/c13/translate.py BIND are right',
     'part (a): a for loop may raise at each iteration; `except X` (X not BaseException) may or may not catch',
-    'part (b): one thread; the default execution policy; Configurator(exceptionresponse_view=None); one exception view '
-    'registered for Exception (or none); components are the instrumented ones of harness/c13/app.py',
+    'part (b): the default execution policy; exception views: any subset of {view for Exception, view for HTTPException, '
+    'default exceptionresponse view}, without predicates; at most one subrequest per view, started from the view body; '
+    'components are the instrumented ones of harness/c13/app.py; thread independence is tested (soak), not proved',
     'a finished callback that itself raises stops the remaining finished callbacks (documented behaviour): the callback '
     'clause of the property is only judged for scenarios without a raising finished callback',
 ]
@@ -39,12 +43,14 @@ LEVEL_TEXT = ('Machine-checked: (a) for the regenerated skeletons of Router.__ca
               'on EVERY path (any opaque call returning or raising, any number of loop iterations) the thread-local stack is '
               'restored (resp. +1/-1 for acquire/release), marked moments happen under the right frame, finish_request '
               'happens exactly once and last, response callbacks/NewResponse only after handle_request returned and in that '
-              'order; (b) for the pipeline interpreter, for every scenario tree, exception-view availability and initial '
-              'stack: the stack is restored and every event happens with its own request current.')
+              'order; (b) for the pipeline interpreter, for every scenario tree, exception-view configuration and initial '
+              'stack: the stack is restored and every event happens with its own request current; and for every valid '
+              'scenario tree the run satisfies the declarative judge of the property (finished callbacks exactly the '
+              'registered ones, once, in order, after everything else; response callbacks then NewResponse exactly when a '
+              'response came out of the tween chain; also when callbacks raise).')
 LEVEL_NOTE = ('Trusted: Coq kernel; the translator and its binding table; the hand-written pipeline model (validated by the '
-              'fault-injection correspondence, shape-pinned); Python harness. The callback-order clauses for the pipeline '
-              'model are judged on every observed and modelled run by the extracted judge, not proved for all scenarios '
-              '(see NOTES.md).')
+              'fault-injection correspondence, shape-pinned); Python harness. The judge proved of the model is the same '
+              'extracted judge that is evaluated on every observation of the implementation.')
 
 PINS_SPEC = {
     'pyramid/router.py': ['Router.handle_request', 'Router.invoke_request', 'Router.finish_request',
